@@ -2657,6 +2657,12 @@ func (g *gen) systematicPeer(kind int) {
 		past := uint64(g.cfg.cur+g.cfg.allowed+1)*spe + uint64(g.r.Intn(40))
 		g.peer(peerOp{ty: ty, slot: past, nsub: 1, seed: g.seed(), malt: "none", entries: []entrySpec{base}})
 		g.peer(peerOp{ty: ty, slot: uint64(g.cfg.cur+g.cfg.allowed+1)*spe - 1, nsub: 1, seed: g.seed(), malt: "none", entries: []entrySpec{base}})
+		// extreme wire slots (sign bit set, near the uint64 / int64 limits): far outside every window
+		for _, xs := range []uint64{1 << 63, 1<<63 + uint64(g.r.Intn(1000)), ^uint64(0), ^uint64(0) - uint64(g.r.Intn(64)), 1<<63 - 1, 1 << 62, 1 << 32} {
+			if g.r.Chance(1, 2) {
+				g.peer(peerOp{ty: ty, slot: xs, nsub: 1, seed: g.seed(), malt: "none", entries: []entrySpec{base}})
+			}
+		}
 		for _, t := range []int{0, -1, 5, 13, 14, 15 + g.r.Intn(100), 1 + g.r.Intn(12)} {
 			g.peer(peerOp{ty: t, slot: slot, nsub: 1, seed: g.seed(), malt: "none", entries: []entrySpec{base}})
 		}
